@@ -167,8 +167,10 @@ std::string dimTok(const nix::Dimension &dim) {
     case nix::DimensionType::DataFrame: {
         nix::DataFrameDimension d = dim.asDataFrameDimension();
         auto ci = d.columnIndex();
-        nix::DataFrame df = d.data();
-        return "F:" + (df ? df.id() : std::string("~")) + ":" + (ci ? std::to_string(*ci) : std::string("~"));
+        // the frame is a mandatory link: once the frame has been deleted the getter throws — that is this dimension's answer, the
+        // other dimensions of the array are still to be listed
+        std::string fid = safe([&]() { nix::DataFrame df = d.data(); return df ? df.id() : std::string("~"); });
+        return "F:" + fid + ":" + (ci ? std::to_string(*ci) : std::string("~"));
     }
     }
     return "?";
